@@ -163,10 +163,163 @@ def all_cells(cells, VAL):
     return out
 
 
+def claim_drop_unlinks(cx, res, kf):
+    """<Cons as Drop>::drop: the hand-written drop may leave the cdr chain to the compiler's (recursive) drop glue only when
+    that chain is at most two cells long; otherwise it takes the cells off one by one in a loop."""
+    VAL = cx.enums["Value"]
+    CONS = VAL.index("Cons")
+    fn = None
+    for name, f in cx.fns.items():
+        if "lexpr/src/cons.rs" in name and name.endswith("::drop") and "Cons" in f.local_ty.get(f.args[0], ""):
+            fn = f
+    if fn is None:
+        res.error = "<Cons as Drop>::drop not found in the MIR dump"
+        return
+    eng = C.make_engine(cx, [], loop_mode="cut", timeout_s=120, max_paths=5000)
+    info = {}
+
+    def unref(st, v):
+        while isinstance(v, Ref):
+            v = eng.load(st, v.addr)
+        return v
+
+    def h_carcdr(engine, st, fr, callee, argv, m):
+        c = unref(st, argv[0])
+        if not isinstance(c, Opaque) or "cdr" not in c.attrs:
+            return Ref(("V", Blob("field")))
+        return Ref(("V", c.attrs[m.group(1)]))
+
+    def h_take(engine, st, fr, callee, argv, m):
+        c = unref(st, argv[0])
+        st.events.append(("take", c.label if isinstance(c, Opaque) else "later-cell"))
+        return Opaque("Cons", "taken", {})
+
+    def h_cdr_mut(engine, st, fr, callee, argv, m):
+        return Ref(("V", Blob("cdr of a taken cell")))
+
+    def h_as_cons_mut(engine, st, fr, callee, argv, m):
+        some = z3.Bool("more_cells_%d" % next(engine.fresh))
+        return S.mk_option(some, Ref(("V", Opaque("Cons", "later", {}))))
+    eng.stubs = [(re.compile(r"^Cons::(car|cdr)$"), h_carcdr), (re.compile(r"^Cons::take$"), h_take), (re.compile(r"^Cons::cdr_mut$"), h_cdr_mut),
+                 (re.compile(r"^Value::as_cons_mut$"), h_as_cons_mut),
+                 # list-walking predicates (is_list, is_dotted_list, ...): an arbitrary answer
+                 (re.compile(r"^Value::is_(?!cons$|null$)\w+$"), lambda e, st, fr, c, a, m: BoolV(z3.Bool("pred_%d" % next(e.fresh)))),
+                 (re.compile(r"^(core|std)::ptr::drop_in_place::<"), lambda e, st, fr, c, a, m: UnitV()),
+                 (re.compile(r"^(core|std)::mem::drop::<"), lambda e, st, fr, c, a, m: UnitV())] + S.COMBINATOR_STUBS + S.CORE_STUBS
+
+    def init(e, st, fr):
+        cdr2 = sym_value(cx, e, st, "cdr2", 0)
+        cell2 = Opaque("Cons", "second", {"car": Blob("car2"), "cdr": cdr2})
+        cdr1 = sym_value(cx, e, st, "cdr1", 0)
+        cdr1.variants[CONS] = [cell2]
+        cell1 = Opaque("Cons", "self", {"car": Blob("car1"), "cdr": cdr1})
+        st.heap["self"] = cell1
+        fr.locals[fn.args[0]] = Ref(("H", "self"))
+        info.update(cdr1=cdr1, cdr2=cdr2)
+        st.notes["in"] = ()
+        return []
+
+    def havoc(e, st, fr, bb):
+        st.notes["in"] = st.notes["in"] + ((bb, {"nev": len(st.events)}),)
+        return []
+    eng.havoc_hook = havoc
+    terms = eng.explore(fn.name, init)
+    res.absorb(eng)
+
+    def onm(m=None):
+        for dotted in (True, False):
+            done = RP.stack_op("drop", 60000, dotted=dotted, timeout=400)
+            res.replays += 1
+            if done is False:
+                return {"replayed": True, "observed": "drop of a 60000-element %s list on a 2 MiB stack did not complete" % ("dotted" if dotted else "proper"),
+                        "witness": {"kind": "stack", "op": "drop", "n": 60000, "dotted": dotted}}
+        return {"replayed": False}
+    seen = {"early": 0, "loop": 0, "step": 0}
+    long_chain = z3.And(info["cdr1"].discr == CONS, info["cdr2"].discr == CONS)
+    for t in terms:
+        st = t.state
+        pc = list(st.pc)
+        takes = [e for e in st.events if e[0] == "take"]
+        if t.kind == "PANIC":
+            res.must_be_unsat(pc, "Cons::drop: reachable panic", onm)
+        elif t.kind == "LOOP_BACK":
+            seen["step"] += 1
+            hb, rec = st.notes["in"][-1]
+            if not [e for e in st.events[rec["nev"]:] if e[0] == "take"]:
+                res.must_be_unsat(pc, "Cons::drop: a pass of the unlinking loop does not take the next cell off the chain", onm)
+        elif t.kind == "RETURN":
+            if not takes:
+                seen["early"] += 1
+                res.must_be_unsat(pc + [long_chain], "Cons::drop leaves a cdr chain of more than two cells to the recursive drop glue "
+                                  "(one stack frame per element; e.g. for dotted lists)", onm)
+            else:
+                seen["loop"] += 1
+                if takes[0][1] != "self":
+                    res.must_be_unsat(pc, "Cons::drop: the cell being dropped is not emptied first", onm)
+    for k, n in seen.items():
+        res.vacuity.append(("Cons::drop reaches %s" % k, n > 0))
+
+
+def claim_ignored_any(cx0, res, kf):
+    """Skipping an unknown field (serde's IgnoredAny) must not walk the skipped value: deserialize_ignored_any only tells
+    the visitor `unit`; forwarding to deserialize_any would present a list as nested (car, cdr) pairs, one stack frame per
+    element."""
+    from .serde import merged_ctx, find_method, serde_stubs
+    cx = merged_ctx()
+    fn = find_method(cx, "serde-lexpr/src/value/de.rs", "deserialize_ignored_any", "Deserializer")
+    if fn is None:
+        res.error = "deserialize_ignored_any not found"
+        return
+    eng = C.make_engine(cx, [], loop_mode="cut", timeout_s=120, max_paths=5000)
+    calls = []
+
+    def h_other(engine, st, fr, callee, argv, m):
+        st.events.append(("forward", m.group(1)))
+        return S.mk_result(engine, z3.Bool("fw_err_%d" % next(engine.fresh)), Blob("forwarded"), Opaque("Error", "fw", {}))
+    eng.stubs = [(re.compile(r"::(deserialize_\w+)(?:::<.*>)?$"), h_other)] + serde_stubs(cx, eng) + S.COMBINATOR_STUBS + S.CORE_STUBS
+
+    def init(e, st, fr):
+        v = sym_value(cx, e, st, "in", 1)
+        st.heap["de"] = Agg("struct", "Deserializer", [Ref(("V", v))])
+        fr.locals[fn.args[0]] = Ref(("H", "de"))
+        fr.locals[fn.args[1]] = Opaque("V", "visitor", {})
+        return []
+    terms = eng.explore(fn.name, init)
+    res.absorb(eng)
+
+    def onm(m=None):
+        done = RP.stack_op("from_value_ignored", 300000)
+        res.replays += 1
+        return {"replayed": done is False, "observed": "from_value of a struct with an unknown field holding 300000 elements completed=%r" % done,
+                "witness": {"kind": "stack", "op": "from_value_ignored", "n": 300000}}
+    n = 0
+    for t in terms:
+        pc = list(t.state.pc)
+        if t.kind == "PANIC":
+            res.must_be_unsat(pc, "deserialize_ignored_any: reachable panic", onm)
+            continue
+        n += 1
+        visits = [e for e in t.state.events if e[0] == "visit"]
+        fw = [e for e in t.state.events if e[0] == "forward"]
+        bad = fw or [e for e in visits if e[1] not in ("visit_unit", "visit_none")]
+        if bad:
+            res.must_be_unsat(pc, "deserialize_ignored_any walks the value it is asked to skip (%s): a skipped list costs stack per element"
+                              % ", ".join(sorted(set(e[1] for e in bad))), onm)
+    res.vacuity.append(("deserialize_ignored_any paths", n > 0))
+
+
 CLAIMS = [
     Claim("c16_no_cdr_recursion", "C16", "quick", claim_no_cdr_recursion,
           "Cons::clone and Cons::eq never make a nested Value-level call on a cdr that is itself a pair: they advance along "
           "the cdr chain in a loop and recurse only into elements (nesting), so their stack depth does not grow with the "
           "number of elements",
           "one arbitrary loop step on abstract cells with arbitrary car / cdr kinds", configs=("fast",)),
+    Claim("c16_drop_unlinks", "C16", "quick", claim_drop_unlinks,
+          "the hand-written Drop of a cons cell returns early (leaving the rest to the recursive drop glue) only when at most two "
+          "further cells follow, whatever ends the chain (proper or dotted); otherwise it empties the cell and every pass of its "
+          "loop takes the next cell off the chain",
+          "arbitrary kinds of the first two cdrs; any chain length (loop cut)", configs=("fast",)),
+    Claim("c16_ignored_any_shallow", "C16", "quick", claim_ignored_any,
+          "deserialize_ignored_any (unknown struct fields) answers with visit_unit and never forwards to a walking method",
+          "arbitrary value", configs=("fast",), crate="serde-lexpr"),
 ]
